@@ -156,9 +156,13 @@ IMPLS: Dict[str, Callable[..., Any]] = {
     "true": lambda x: True,
     "false": lambda x: False,
     "truthy": lambda x: [0] if _k(x) % 2 else [],  # non-bool truth values
+    "none_or_1": lambda x: 1 if _k(x) % 2 else None,  # predicates answering None / 0 / "" for "no"
+    "zero_or_str": lambda x: "y" if _k(x) < 2 else 0,
     # n-ary map
     "mk": lambda *xs: Item(builtins.sum(_k(x) for x in xs), ("mk",) + builtins.tuple(_uid(x) for x in xs)),
     "tup": lambda *xs: xs,
+    "none_or_item": lambda *xs: None if builtins.sum(_k(x) for x in xs) % 2 else xs[0],  # results may be None
+    "falsy_result": lambda *xs: ("", 0, (), None)[builtins.sum(_k(x) for x in xs) % 4],
     # binary reductions
     "add": lambda a, b: a + b,
     "pickmax": lambda a, b: a if _k(a) >= _k(b) else b,
